@@ -11,6 +11,7 @@ Runs `LP.MintLimits.stepX` (= `step` + the ghost `closed`, the leaf `stage‖sen
 * `t <ns>`                                                               clock (environment)
 * `newwl id=<k> kind=<0..6> … | res=<0|1>`                               a whitelist contract was created (environment)
 * `wlop wl=<k> … | res=` / `other v=<variant> … | res=` / `migrate … | res=`   environment (`XOp.env`): nothing C03 owns may move
+* `govern max=<n> | res=`                                                  factory sudo `UpdateParams {max_per_address_limit}` (`XOp.govern`)
 * `create mk=<0..8> wl=<k|-> lim=<n> ntok=<n|-> maxpal=<n> admin=<a> … | wlact=<0|1> pre=<0|1> res=`
 * `mint sender=<a> funds=<n> stage=<n|-> proof=<-|…> alloc=<n|-> |
         act= mem= leaf= wlim= mcnt= mcfg= sid= slim=<n|-> se=<n|-> sb=<bytes> lq=<bytes|-> started= pre= res=`
@@ -179,6 +180,15 @@ def c03Step (d : D) (line : String) : D × String :=
       | .error _ => (d, s!"err {obs d "-" "-"}")
     | some _, some _, some _, none => (d, "err none ## g=-")
     | _, _, _, _ => (d, "bad-op")
+  | some "govern" =>
+    -- factory sudo UpdateParams{max_per_address_limit}: environment; when it went through the model's factory maximum follows
+    match natKv ws "max", boolKv ws "res", d.st with
+    | some mp, some true, some x =>
+      match stepX x (.govern mp) with
+      | .ok (x', _) => let d' := { d with st := some x' }; (d', s!"ok {obs d' "-" "-"}")
+      | .error _ => (d, "bad-op")
+    | some _, some res, _ => (d, s!"{if res then "ok" else "err"} {obs d "-" "-"}")
+    | _, _, _ => (d, "bad-op")
   | some w =>
     if w == "wlop" || w == "other" || w == "migrate" then
       -- environment: whatever the real contract answered, nothing in the C03 state may move
